@@ -230,47 +230,47 @@ theorem C10_no_path_rejected {g : Graph} {names : List String} {a b : String}
 
 /-! ## 7. the lazy adjacency cache is coherent for every history of registrations and look-ups -/
 
-structure GState where
-  models : Graph := []
-  cache : List Edge := []
-  dirty : Bool := true
-
-inductive GOp where
-  | addModel (m : GModel)
-  | find (a b : String)
-
-/-- One API call. `add_model` appends and marks the cache dirty; `find_relationship_path`
-returns `[]` for `a = b` *before* looking at the cache, otherwise rebuilds when dirty. -/
-def GState.step (s : GState) : GOp → GState
-  | .addModel m => if s.models.has m.name then s else { s with models := s.models ++ [m], dirty := true }
-  | .find a b =>
-    if a == b then s
-    else if s.dirty then { s with cache := buildEdges s.models, dirty := false } else s
-
 def GState.Coherent (s : GState) : Prop := s.dirty = true ∨ s.cache = buildEdges s.models
 
-theorem C10_cache_coherent (ops : List GOp) : (ops.foldl GState.step {}).Coherent := by
-  suffices h : ∀ s : GState, s.Coherent → (ops.foldl GState.step s).Coherent from h {} (Or.inl rfl)
-  induction ops with
-  | nil => intro s hs; exact hs
-  | cons op ops ih =>
-    intro s hs
-    apply ih
-    cases op with
-    | addModel m =>
-      simp only [GState.step]
-      split
-      · exact hs
-      · exact Or.inl rfl
-    | find a b =>
-      simp only [GState.step]
-      split
-      · exact hs
-      · split
-        · exact Or.inr rfl
-        · rcases hs with h | h
-          · simp_all
-          · exact Or.inr h
+theorem GState.step_coherent (s : GState) (op : GOp) (hs : s.Coherent) : (s.step op).1.Coherent := by
+  cases op with
+  | addModel m =>
+    simp only [GState.step]
+    split
+    · exact hs
+    · exact Or.inl rfl
+  | find a b =>
+    simp only [GState.step, GState.find]
+    split
+    · exact hs
+    · split
+      · exact Or.inr rfl
+      · rcases hs with h | h
+        · simp_all
+        · exact Or.inr h
+
+/-- The answer of a look-up after *any* history equals the answer of the pure planner on the models
+registered so far: which look-ups or registrations happened before is irrelevant. -/
+theorem C10_history_free (ops : List GOp) (a b : String) :
+    (((GState.run {} ops).1).find a b).2 = findPath (GState.run {} ops).1.models a b := by
+  have hco : ∀ (ops : List GOp) (s : GState), s.Coherent → (s.run ops).1.Coherent := by
+    intro ops
+    induction ops with
+    | nil => intro s hs; exact hs
+    | cons op ops ih =>
+      intro s hs
+      simp only [GState.run]
+      exact ih _ (s.step_coherent op hs)
+  have hc := hco ops {} (Or.inl rfl)
+  generalize (GState.run {} ops).1 = s at hc
+  simp only [GState.find, findPath]
+  split
+  · rfl
+  · rcases hc with h | h
+    · simp [h]
+    · by_cases hd : s.dirty = true
+      · simp [hd]
+      · simp [hd, h]
 
 /-! ## non-vacuity: concrete graphs meeting the hypotheses -/
 
